@@ -18,7 +18,7 @@ RULE = (
     "point or one assembly order; distinct = (n, n_chunks[, order]); non-trivial = at least one pair (n>=2)"
 )
 ASSUMPTIONS = ["thetas in the assembly workload are harness stubs with prescribed predictions plus real sparse-combo samples"]
-REQUIRED = {"partition_grid_points": {"quick": 500, "thorough": 1800}, "assemblies_checked": {"quick": 150, "thorough": 2000}, "refusals_checked": {"quick": 50, "thorough": 500}, "large_matrix_roundtrips": {"quick": 8, "thorough": 80}, "cli_matrices_checked": {"quick": 6, "thorough": 50}}
+REQUIRED = {"chunk_files_overwritten": {"quick": 200, "thorough": 3000}, "partition_grid_points": {"quick": 500, "thorough": 1800}, "assemblies_checked": {"quick": 150, "thorough": 2000}, "refusals_checked": {"quick": 50, "thorough": 500}, "large_matrix_roundtrips": {"quick": 8, "thorough": 80}, "cli_matrices_checked": {"quick": 6, "thorough": 50}}
 N_EXH = {"quick": 14, "thorough": 22}  # grid sizes 548 / 1900 points
 
 
@@ -142,7 +142,11 @@ def run_shard(rec, tier, seed, shard, nshards):
             for c in range(n_chunks):
                 try:
                     ch = DC.calculate_pairwise_distance_matrix_on_predictions(holder, RecMetric(), screen, c, n_chunks)
-                    fn = os.path.join(tmp, "d%d_%d.h5" % (t, c))
+                    # the pipeline writes every round's chunks to the same paths: what an earlier computation left
+                    # under that name (often a chunk of the same length) has to be replaced
+                    fn = os.path.join(tmp, "d_%d.h5" % c)
+                    if os.path.exists(fn):
+                        rec.count("chunk_files_overwritten")
                     ch.save(fn)
                     files.append(fn)
                 except Exception as e:
@@ -200,8 +204,6 @@ def run_shard(rec, tier, seed, shard, nshards):
                 except Exception as e:
                     rec.count("refusals_checked")
                     rec.violation("C07/refusal/wrong-exception", "incomplete matrix raised %r instead of ValueError" % (e,), w)
-            for fn in files:
-                os.remove(fn)
         large_matrices(rec, tier, rng, DC, tmp, shard)
         cli_chunks(rec, tier, rng, DC, tmp)
 
